@@ -6,8 +6,10 @@ results of evaluations are concrete values.
 import RedunModel.Model.EvalCore
 namespace RedunModel.EvalCore
 
+variable {cx : Ctx}
+
 /-- the rules never prescribe "unknown" -/
-theorem Eval.ne_unk {lib : Lib} {e : Expr} {r : Out} (h : Eval lib e r) : r ≠ .unk := by
+theorem Eval.ne_unk {lib : Lib} {e : Expr} {r : Out} (h : Eval lib cx e r) : r ≠ .unk := by
   induction h <;> first | assumption | (intro hc; cases hc)
 
 theorem mem_bindO {rs : Outs} {k : Expr → Outs} {r : Out} :
@@ -85,10 +87,37 @@ theorem consJoin_known {rs tails : Outs} {r : Out} (h : r ∈ consJoin rs tails)
     | err x => exact Or.inr ⟨x, rfl, Or.inr h.1⟩
     | unk => exact absurd rfl hk
 
-def RecSound (lib : Lib) (rec : Expr → Outs) : Prop := ∀ e r, r ∈ rec e → r ≠ .unk → Eval lib e r
+theorem bind2_known {xs ys : Outs} {k : List Expr → List Expr → Outs} {r : Out} (h : r ∈ bind2 xs ys k) (hk : r ≠ .unk) :
+    (∃ a d, .ok (L a) ∈ xs ∧ .ok (L d) ∈ ys ∧ r ∈ k a d) ∨ (∃ x, r = .err x ∧ (.err x ∈ xs ∨ .err x ∈ ys)) := by
+  unfold bind2 at h
+  rcases bindL_known h hk with ⟨vs, hvs, hr⟩ | ⟨x, rfl, hx⟩
+  · rcases consJoin_known hvs (by simp) with ⟨v, vs1, heq, hv, hvs1⟩ | ⟨x, hx, _⟩
+    · rcases consJoin_known hvs1 (by simp) with ⟨w, vs2, heq2, hw, hvs2⟩ | ⟨x, hx, _⟩
+      · simp at hvs2
+        injection heq with heq; injection heq with _ heq
+        injection heq2 with heq2; injection heq2 with _ heq2
+        subst heq2; subst heq; subst hvs2
+        split at hr
+        · rename_i a d heq
+          simp at heq
+          obtain ⟨h1, h2⟩ := heq
+          subst h1; subst h2
+          exact Or.inl ⟨_, _, hv, hw, hr⟩
+        · simp at hr; exact absurd hr hk
+      · cases hx
+    · cases hx
+  · rcases consJoin_known hx (by simp) with ⟨_, _, heq, _, _⟩ | ⟨y, hy, h1 | h2⟩
+    · cases heq
+    · injection hy with hy; subst hy; exact Or.inr ⟨_, rfl, Or.inl h1⟩
+    · rcases consJoin_known h2 (by simp) with ⟨_, _, heq, _, _⟩ | ⟨z, hz, h3 | h4⟩
+      · cases heq
+      · injection hy with hy; injection hz with hz; subst hy; subst hz; exact Or.inr ⟨_, rfl, Or.inr h3⟩
+      · simp at h4
 
-theorem evalList_sound {lib : Lib} {rec : Expr → Outs} (hrec : RecSound lib rec) :
-    ∀ es r, r ∈ evalList rec es → r ≠ .unk → Eval lib (L es) r := by
+def RecSound (lib : Lib) (cx : Ctx) (rec : Expr → Outs) : Prop := ∀ e r, r ∈ rec e → r ≠ .unk → Eval lib cx e r
+
+theorem evalList_sound {lib : Lib} {rec : Expr → Outs} (hrec : RecSound lib cx rec) :
+    ∀ es r, r ∈ evalList rec es → r ≠ .unk → Eval lib cx (L es) r := by
   intro es
   induction es with
   | nil =>
@@ -105,8 +134,8 @@ theorem evalList_sound {lib : Lib} {rec : Expr → Outs} (hrec : RecSound lib re
     · exact Eval.consErrTl (ih _ hx (by simp))
 
 
-theorem condGo_sound {lib : Lib} {rec : Expr → Outs} (hrec : RecSound lib rec) :
-    ∀ (exprs : List Expr) (r : Out), r ∈ condGo rec exprs → r ≠ .unk → Eval lib (.cond exprs) r
+theorem condGo_sound {lib : Lib} {rec : Expr → Outs} (hrec : RecSound lib cx rec) :
+    ∀ (exprs : List Expr) (r : Out), r ∈ condGo rec exprs → r ≠ .unk → Eval lib cx (.cond exprs) r
   | [], r, h, hk => by simp [condGo] at h; exact absurd h hk
   | [_], r, h, hk => by simp [condGo] at h; exact absurd h hk
   | [c, t], r, h, hk => by
@@ -144,8 +173,8 @@ theorem condGo_sound {lib : Lib} {rec : Expr → Outs} (hrec : RecSound lib rec)
         exact Eval.condElif (hrec _ _ hcv (by simp)) ht' (condGo_sound hrec _ _ hr hk)
     · exact Eval.condErr (hrec _ _ hx (by simp))
 
-theorem seqGo_sound {lib : Lib} {rec : Expr → Outs} (hrec : RecSound lib rec) :
-    ∀ (es : List Expr) (r : Out), r ∈ seqGo rec es → r ≠ .unk → Eval lib (.seq es) r := by
+theorem seqGo_sound {lib : Lib} {rec : Expr → Outs} (hrec : RecSound lib cx rec) :
+    ∀ (es : List Expr) (r : Out), r ∈ seqGo rec es → r ≠ .unk → Eval lib cx (.seq es) r := by
   intro es
   induction es with
   | nil =>
@@ -165,10 +194,10 @@ theorem seqGo_sound {lib : Lib} {rec : Expr → Outs} (hrec : RecSound lib rec) 
     · exact Eval.seqErrHd (hrec _ _ hx (by simp))
 
 
-theorem settle_not_err {lib : Lib} {e : Expr} {x : Err} : ¬ Eval lib (.settle e) (.err x) := by
+theorem settle_not_err {lib : Lib} {e : Expr} {x : Err} : ¬ Eval lib cx (.settle e) (.err x) := by
   intro h; cases h
 
-theorem settleList_not_err {lib : Lib} {x : Err} : ∀ items : List Expr, ¬ Eval lib (L (items.map .settle)) (.err x) := by
+theorem settleList_not_err {lib : Lib} {x : Err} : ∀ items : List Expr, ¬ Eval lib cx (L (items.map .settle)) (.err x) := by
   intro items
   induction items with
   | nil => intro h; cases h; contradiction
@@ -198,8 +227,10 @@ theorem iterOf_ok {v w : Expr} (h : iterOf v = .ok w) : ∃ xs, w = L xs := by
 
 theorem mem_singleton_ok {r : Out} {o : Out} (h : r ∈ [o]) : r = o := by simpa using h
 
-theorem step_sound {lib : Lib} {rec : Expr → Outs} (hrec : RecSound lib rec) : RecSound lib (step lib rec) := by
-  intro e r h hk
+theorem step_sound {lib : Lib} {recC : Ctx → Expr → Outs} (hrecAll : ∀ cx, RecSound lib cx (recC cx)) :
+    ∀ cx, RecSound lib cx (step lib recC cx) := by
+  intro cx e r h hk
+  have hrec := hrecAll cx
   cases e with
   | none => simp only [step] at h; rw [mem_singleton_ok h]; exact Eval.leaf rfl
   | bool b => simp only [step] at h; rw [mem_singleton_ok h]; exact Eval.leaf rfl
@@ -236,16 +267,19 @@ theorem step_sound {lib : Lib} {rec : Expr → Outs} (hrec : RecSound lib rec) :
         exact Eval.dict (evalList_sound hrec _ _ hall (by simp)) hc
       · exact absurd (mem_singleton_ok hr) hk
     · exact Eval.dictErr (evalList_sound hrec _ _ hx (by simp))
-  | call t args kwn kwv =>
+  | call t args kwn kwv ovn ovv =>
     simp only [step] at h
     split at h
     · exact absurd (mem_singleton_ok h) hk
     · rename_i td htd
-      rcases bindL_known h hk with ⟨all, hall, hr⟩ | ⟨x, rfl, hx⟩
+      have hrec' := hrecAll (cx.override ovn ovv)
+      rcases bind2_known h hk with ⟨akv, dvs, ha, hd, hr⟩ | ⟨x, rfl, hx | hx⟩
       · rcases thenEval_known hr hk with ⟨e', he', hr⟩ | ⟨x, hx, rfl⟩
-        · exact Eval.call htd (evalList_sound hrec _ _ hall (by simp)) he' (hrec _ _ hr hk)
-        · exact Eval.callRaise htd (evalList_sound hrec _ _ hall (by simp)) hx
+        · exact Eval.call htd (evalList_sound hrec _ _ ha (by simp)) (evalList_sound hrec' _ _ hd (by simp)) he'
+            (hrec' _ _ hr hk)
+        · exact Eval.callRaise htd (evalList_sound hrec _ _ ha (by simp)) (evalList_sound hrec' _ _ hd (by simp)) hx
       · exact Eval.callArgErr htd (evalList_sound hrec _ _ hx (by simp))
+      · exact Eval.callDefaultErr htd (evalList_sound hrec' _ _ hx (by simp))
   | op name args =>
     simp only [step] at h
     rcases bindL_known h hk with ⟨vs, hvs, hr⟩ | ⟨x, rfl, hx⟩
@@ -375,17 +409,32 @@ theorem step_sound {lib : Lib} {rec : Expr → Outs} (hrec : RecSound lib rec) :
     simp only [step] at h
     rw [List.mem_flatMap] at h
     obtain ⟨o, ho, hr⟩ := h
+    have hin := hrecAll (if ne then lib.config.over cx else Ctx.empty.over cx)
     cases o with
     | ok v =>
       simp only at hr
       rcases bindO_known hr hk with ⟨d, hd, hr⟩ | ⟨x, rfl, hx⟩
       · split at hr
         · rw [mem_singleton_ok hr]
-          exact Eval.subrunOk (hrec _ _ ho (by simp)) (hrec _ _ hd (by simp))
+          exact Eval.subrunOk (hin _ _ ho (by simp)) (hrec _ _ hd (by simp))
         · exact absurd (mem_singleton_ok hr) hk
-      · exact Eval.subrunOkErr (hrec _ _ ho (by simp)) (hrec _ _ hx (by simp))
+      · exact Eval.subrunOkErr (hin _ _ ho (by simp)) (hrec _ _ hx (by simp))
     | unk => simp at hr; exact absurd hr hk
-    | err x => simp at hr; subst hr; exact Eval.subrunErr (hrec _ _ ho (by simp))
+    | err x => simp at hr; subst hr; exact Eval.subrunErr (hin _ _ ho (by simp))
+  | getCtx key dflt =>
+    simp only [step] at h
+    split at h
+    · exact absurd (mem_singleton_ok h) hk
+    · rename_i hc
+      simp only [Bool.or_eq_true, Bool.not_eq_eq_eq_not, Bool.not_true, not_or] at hc
+      have hk1 : key.toList.contains '.' = false := by simpa using hc.1
+      have hd : isValue dflt = true := by simpa using hc.2
+      split at h
+      · rename_i v hv
+        split at h
+        · rename_i hvv; rw [mem_singleton_ok h]; exact Eval.getCtxHit hk1 hd hv hvv
+        · exact absurd (mem_singleton_ok h) hk
+      · rename_i hv; rw [mem_singleton_ok h]; exact Eval.getCtxMiss hk1 hd hv
   | settle e =>
     simp only [step] at h
     rw [List.mem_map] at h
@@ -395,26 +444,26 @@ theorem step_sound {lib : Lib} {rec : Expr → Outs} (hrec : RecSound lib rec) :
     | err x => simp [settleOut] at hr; subst hr; exact Eval.settleErr (hrec _ _ ho (by simp))
     | unk => simp [settleOut] at hr; exact absurd hr.symm hk
 
-theorem evalAll_sound {lib : Lib} : ∀ (n : Nat), RecSound lib (evalAll lib n)
+theorem evalAll_sound {lib : Lib} : ∀ (n : Nat) (cx : Ctx), RecSound lib cx (evalAll lib n cx)
   | 0 => by
-    intro e r h hk
+    intro cx e r h hk
     simp [evalAll] at h
     exact absurd h hk
   | n + 1 => by
-    intro e r h hk
+    intro cx e r h hk
     rw [evalAll] at h
-    exact step_sound (evalAll_sound n) e r h hk
+    exact step_sound (evalAll_sound n) cx e r h hk
 
 /-- `evalFuel` answers only with outcomes the reduction rules prescribe. -/
-theorem evalFuel_sound {lib : Lib} {n : Nat} {e : Expr} {r : Out} (h : evalFuel lib n e = some r) : Eval lib e r := by
+theorem evalFuel_sound {lib : Lib} {n : Nat} {e : Expr} {r : Out} (h : evalFuel lib n cx e = some r) : Eval lib cx e r := by
   unfold evalFuel at h
   split at h
   · rename_i v heq
     cases h
-    exact evalAll_sound n e _ (by rw [heq]; simp) (by simp)
+    exact evalAll_sound n cx e _ (by rw [heq]; simp) (by simp)
   · rename_i x heq
     cases h
-    exact evalAll_sound n e _ (by rw [heq]; simp) (by simp)
+    exact evalAll_sound n cx e _ (by rw [heq]; simp) (by simp)
   · cases h
 
 /-! ## Values -/
@@ -422,7 +471,7 @@ theorem evalFuel_sound {lib : Lib} {n : Nat} {e : Expr} {r : Out} (h : evalFuel 
 theorem isLeaf_isValue {e : Expr} (h : isLeaf e = true) : isValue e = true := by
   cases e <;> simp [isLeaf] at h <;> simp [isValue]
 
-theorem list_self {lib : Lib} : ∀ xs : List Expr, (∀ x ∈ xs, Eval lib x (.ok x)) → Eval lib (L xs) (.ok (L xs)) := by
+theorem list_self {lib : Lib} : ∀ xs : List Expr, (∀ x ∈ xs, Eval lib cx x (.ok x)) → Eval lib cx (L xs) (.ok (L xs)) := by
   intro xs
   induction xs with
   | nil => intro _; exact Eval.nil
@@ -450,8 +499,8 @@ theorem allValues_of_mem : ∀ {xs : List Expr}, (∀ x ∈ xs, isValue x = true
     simp only [allValues, Bool.and_eq_true]
     exact ⟨h y (by simp), ih (fun x hx => h x (by simp [hx]))⟩
 
-theorem list_ok_append {lib : Lib} {b vb : List Expr} (hb : Eval lib (L b) (.ok (L vb))) :
-    ∀ (a va : List Expr), Eval lib (L a) (.ok (L va)) → Eval lib (L (a ++ b)) (.ok (L (va ++ vb))) := by
+theorem list_ok_append {lib : Lib} {b vb : List Expr} (hb : Eval lib cx (L b) (.ok (L vb))) :
+    ∀ (a va : List Expr), Eval lib cx (L a) (.ok (L va)) → Eval lib cx (L (a ++ b)) (.ok (L (va ++ vb))) := by
   intro a
   induction a with
   | nil =>
@@ -468,7 +517,7 @@ theorem list_ok_append {lib : Lib} {b vb : List Expr} (hb : Eval lib (L b) (.ok 
     | cont hk _ _ => exact absurd rfl hk
 
 mutual
-  theorem value_self {lib : Lib} : ∀ v : Expr, isValue v = true → Eval lib v (.ok v)
+  theorem value_self {lib : Lib} : ∀ v : Expr, isValue v = true → Eval lib cx v (.ok v)
     | .none, _ => Eval.leaf rfl
     | .bool _, _ => Eval.leaf rfl
     | .int _, _ => Eval.leaf rfl
@@ -493,7 +542,8 @@ mutual
       have := Eval.dict (lib := lib) (ks := ks) (vs := vs) hl (by simpa using h.2)
       simpa using this
     | .vexpr _, h => by simp [isValue] at h
-    | .call _ _ _ _, h => by simp [isValue] at h
+    | .call _ _ _ _ _ _, h => by simp [isValue] at h
+    | .getCtx _ _, h => by simp [isValue] at h
     | .op _ _, h => by simp [isValue] at h
     | .cond _, h => by simp [isValue] at h
     | .seq _, h => by simp [isValue] at h
@@ -505,7 +555,7 @@ mutual
     | .join _, h => by simp [isValue] at h
     | .subrun _ _, h => by simp [isValue] at h
     | .settle _, h => by simp [isValue] at h
-  theorem values_self {lib : Lib} : ∀ xs : List Expr, allValues xs = true → Eval lib (L xs) (.ok (L xs))
+  theorem values_self {lib : Lib} : ∀ xs : List Expr, allValues xs = true → Eval lib cx (L xs) (.ok (L xs))
     | [], _ => Eval.nil
     | y :: ys, h => by
       simp only [allValues, Bool.and_eq_true] at h
@@ -513,8 +563,8 @@ mutual
 end
 
 
-theorem list_unique {lib : Lib} : ∀ xs : List Expr, (∀ x ∈ xs, ∀ r, Eval lib x r → r = .ok x) →
-    ∀ r, Eval lib (L xs) r → r = .ok (L xs) := by
+theorem list_unique {lib : Lib} : ∀ xs : List Expr, (∀ x ∈ xs, ∀ r, Eval lib cx x r → r = .ok x) →
+    ∀ r, Eval lib cx (L xs) r → r = .ok (L xs) := by
   intro xs
   induction xs with
   | nil =>
@@ -543,7 +593,7 @@ theorem list_unique {lib : Lib} : ∀ xs : List Expr, (∀ x ∈ xs, ∀ r, Eval
     | contErr hk _ => exact absurd rfl hk
 
 mutual
-  theorem value_unique {lib : Lib} : ∀ v : Expr, isValue v = true → ∀ r, Eval lib v r → r = .ok v
+  theorem value_unique {lib : Lib} : ∀ v : Expr, isValue v = true → ∀ r, Eval lib cx v r → r = .ok v
     | .none, _ => fun r h => by cases h; rfl
     | .bool _, _ => fun r h => by cases h; rfl
     | .int _, _ => fun r h => by cases h; rfl
@@ -588,7 +638,8 @@ mutual
         simp
       | dictErr h1 => exact absurd (hu _ h1) (by simp)
     | .vexpr _, h => by simp [isValue] at h
-    | .call _ _ _ _, h => by simp [isValue] at h
+    | .call _ _ _ _ _ _, h => by simp [isValue] at h
+    | .getCtx _ _, h => by simp [isValue] at h
     | .op _ _, h => by simp [isValue] at h
     | .cond _, h => by simp [isValue] at h
     | .seq _, h => by simp [isValue] at h
@@ -601,7 +652,7 @@ mutual
     | .subrun _ _, h => by simp [isValue] at h
     | .settle _, h => by simp [isValue] at h
   theorem values_unique {lib : Lib} : ∀ xs : List Expr, allValues xs = true →
-      ∀ x ∈ xs, ∀ r, Eval lib x r → r = .ok x
+      ∀ x ∈ xs, ∀ r, Eval lib cx x r → r = .ok x
     | [], _ => fun x hx => by cases hx
     | y :: ys, h => fun x hx r hr => by
       simp only [allValues, Bool.and_eq_true] at h
@@ -674,7 +725,7 @@ theorem rebuild_value {s : Shape} {vals : List Expr} {v : Expr} (hv : allValues 
     · cases h
   · cases h
 
-theorem result_isValue {lib : Lib} {e : Expr} {r : Out} (h : Eval lib e r) : ∀ v, r = .ok v → isValue v = true := by
+theorem result_isValue {lib : Lib} {e : Expr} {r : Out} (h : Eval lib cx e r) : ∀ v, r = .ok v → isValue v = true := by
   induction h with
   | leaf hl => intro v hv; injection hv with hv; subst hv; exact isLeaf_isValue hl
   | vexpr hv' => intro v hv; injection hv with hv; subst hv; exact hv'
@@ -699,9 +750,10 @@ theorem result_isValue {lib : Lib} {e : Expr} {r : Out} (h : Eval lib e r) : ∀
     rw [isValue_L] at this
     simp [isValue, allValues_take this, allValues_drop this, hc]
   | dictErr _ _ => intro v hv; cases hv
-  | call _ _ _ _ _ ih => exact ih
-  | callRaise _ _ _ _ => intro v hv; cases hv
+  | call _ _ _ _ _ _ _ ih => exact ih
+  | callRaise _ _ _ _ _ _ => intro v hv; cases hv
   | callArgErr _ _ _ => intro v hv; cases hv
+  | callDefaultErr _ _ _ => intro v hv; cases hv
   | op _ _ _ _ ih => exact ih
   | opRaise _ _ _ => intro v hv; cases hv
   | opArgErr _ _ => intro v hv; cases hv
@@ -761,6 +813,8 @@ theorem result_isValue {lib : Lib} {e : Expr} {r : Out} (h : Eval lib e r) : ∀
     exact this.1.2
   | subrunOkErr _ _ _ _ => intro v hv; cases hv
   | subrunErr _ _ => intro v hv; cases hv
+  | getCtxHit _ _ _ hvv => intro v hv; injection hv with hv; subst hv; exact hvv
+  | getCtxMiss _ hd _ => intro v hv; injection hv with hv; subst hv; exact hd
 
 /-! ## Completeness of the evaluator (when it reports no unknown) -/
 
@@ -840,10 +894,35 @@ theorem noUnk_consJoin {rs tails : Outs} (h : NoUnk (consJoin rs tails)) : NoUnk
     rw [List.mem_filter]
     exact ⟨hu, by simp [Out.isOk]⟩
 
-def RecComplete (lib : Lib) (rec : Expr → Outs) : Prop := ∀ e r, NoUnk (rec e) → Eval lib e r → r ∈ rec e
+theorem bind2_ok_intro {xs ys : Outs} {k : List Expr → List Expr → Outs} {r : Out} {a d : List Expr}
+    (ha : .ok (L a) ∈ xs) (hd : .ok (L d) ∈ ys) (hr : r ∈ k a d) : r ∈ bind2 xs ys k := by
+  unfold bind2
+  exact bindL_ok_intro (consJoin_ok_intro ha (consJoin_ok_intro (vs := []) hd (by simp))) (by simpa using hr)
 
-theorem evalList_complete {lib : Lib} {rec : Expr → Outs} (hrec : RecComplete lib rec) :
-    ∀ es r, NoUnk (evalList rec es) → Eval lib (L es) r → r ∈ evalList rec es := by
+theorem bind2_err_left {xs ys : Outs} {k : List Expr → List Expr → Outs} {x : Err} (hx : .err x ∈ xs) :
+    .err x ∈ bind2 xs ys k := by
+  unfold bind2
+  exact bindL_err_intro (consJoin_err_left hx)
+
+theorem bind2_err_right {xs ys : Outs} {k : List Expr → List Expr → Outs} {x : Err} (hx : .err x ∈ ys) :
+    .err x ∈ bind2 xs ys k := by
+  unfold bind2
+  exact bindL_err_intro (consJoin_err_right (consJoin_err_left hx))
+
+theorem noUnk_bind2 {xs ys : Outs} {k : List Expr → List Expr → Outs} (h : NoUnk (bind2 xs ys k)) :
+    NoUnk xs ∧ NoUnk ys ∧ ∀ a d, .ok (L a) ∈ xs → .ok (L d) ∈ ys → NoUnk (k a d) := by
+  unfold bind2 at h
+  have h1 := noUnk_bindL h
+  have h2 := noUnk_consJoin h1.1
+  have h3 := noUnk_consJoin h2.2
+  refine ⟨h2.1, h3.1, fun a d ha hd => ?_⟩
+  have := h1.2 _ (consJoin_ok_intro ha (consJoin_ok_intro (vs := []) hd (by simp)))
+  simpa using this
+
+def RecComplete (lib : Lib) (cx : Ctx) (rec : Expr → Outs) : Prop := ∀ e r, NoUnk (rec e) → Eval lib cx e r → r ∈ rec e
+
+theorem evalList_complete {lib : Lib} {rec : Expr → Outs} (hrec : RecComplete lib cx rec) :
+    ∀ es r, NoUnk (evalList rec es) → Eval lib cx (L es) r → r ∈ evalList rec es := by
   intro es
   induction es with
   | nil =>
@@ -866,8 +945,8 @@ theorem evalList_complete {lib : Lib} {rec : Expr → Outs} (hrec : RecComplete 
     | contErr hk _ => exact absurd rfl hk
 
 
-theorem condGo_complete {lib : Lib} {rec : Expr → Outs} (hrec : RecComplete lib rec) :
-    ∀ (exprs : List Expr) (r : Out), NoUnk (condGo rec exprs) → Eval lib (.cond exprs) r → r ∈ condGo rec exprs
+theorem condGo_complete {lib : Lib} {rec : Expr → Outs} (hrec : RecComplete lib cx rec) :
+    ∀ (exprs : List Expr) (r : Out), NoUnk (condGo rec exprs) → Eval lib cx (.cond exprs) r → r ∈ condGo rec exprs
   | [], r, _, h => by cases h with | leaf h => simp [isLeaf] at h
   | [_], r, _, h => by cases h with | leaf h => simp [isLeaf] at h
   | [c, t], r, hn, h => by
@@ -917,8 +996,8 @@ theorem condGo_complete {lib : Lib} {rec : Expr → Outs} (hrec : RecComplete li
       simp [ht] at this
       exact bindO_ok_intro hc (by simp [ht]; exact condGo_complete hrec _ _ this h2)
 
-theorem seqGo_complete {lib : Lib} {rec : Expr → Outs} (hrec : RecComplete lib rec) :
-    ∀ (es : List Expr) (r : Out), NoUnk (seqGo rec es) → Eval lib (.seq es) r → r ∈ seqGo rec es := by
+theorem seqGo_complete {lib : Lib} {rec : Expr → Outs} (hrec : RecComplete lib cx rec) :
+    ∀ (es : List Expr) (r : Out), NoUnk (seqGo rec es) → Eval lib cx (.seq es) r → r ∈ seqGo rec es := by
   intro es
   induction es with
   | nil =>
@@ -949,8 +1028,10 @@ theorem noUnk_flatMap {rs : Outs} {f : Out → Outs} (h : NoUnk (rs.flatMap f)) 
   intro o ho hu
   exact h (List.mem_flatMap.mpr ⟨o, ho, hu⟩)
 
-theorem step_complete {lib : Lib} {rec : Expr → Outs} (hrec : RecComplete lib rec) : RecComplete lib (step lib rec) := by
-  intro e r hn h
+theorem step_complete {lib : Lib} {recC : Ctx → Expr → Outs} (hrecAll : ∀ cx, RecComplete lib cx (recC cx)) :
+    ∀ cx, RecComplete lib cx (step lib recC cx) := by
+  intro cx e r hn h
+  have hrec := hrecAll cx
   cases e with
   | none => cases h; simp [step]
   | bool b => cases h; simp [step]
@@ -988,22 +1069,29 @@ theorem step_complete {lib : Lib} {rec : Expr → Outs} (hrec : RecComplete lib 
     | leaf h => simp [isLeaf] at h
     | dict h1 hc => exact bindL_ok_intro (evalList_complete hrec _ _ hn'.1 h1) (by simp [hc])
     | dictErr h1 => exact bindL_err_intro (evalList_complete hrec _ _ hn'.1 h1)
-  | call t args kwn kwv =>
+  | call t args kwn kwv ovn ovv =>
+    have hrec' := hrecAll (cx.override ovn ovv)
     cases h with
     | leaf h => simp [isLeaf] at h
-    | call htd h1 hb h2 =>
+    | call htd h1 hd hb h2 =>
       simp only [step, htd] at hn ⊢
-      have hn' := noUnk_bindL hn
-      have hall := evalList_complete hrec _ _ hn'.1 h1
-      exact bindL_ok_intro hall (thenEval_ok_intro hb (hrec _ _ (noUnk_thenEval (hn'.2 _ hall) hb) h2))
-    | callRaise htd h1 hb =>
+      have hn' := noUnk_bind2 hn
+      have ha := evalList_complete hrec _ _ hn'.1 h1
+      have hdv := evalList_complete hrec' _ _ hn'.2.1 hd
+      exact bind2_ok_intro ha hdv (thenEval_ok_intro hb (hrec' _ _ (noUnk_thenEval (hn'.2.2 _ _ ha hdv) hb) h2))
+    | callRaise htd h1 hd hb =>
       simp only [step, htd] at hn ⊢
-      have hn' := noUnk_bindL hn
-      exact bindL_ok_intro (evalList_complete hrec _ _ hn'.1 h1) (thenEval_err_intro hb)
+      have hn' := noUnk_bind2 hn
+      exact bind2_ok_intro (evalList_complete hrec _ _ hn'.1 h1) (evalList_complete hrec' _ _ hn'.2.1 hd)
+        (thenEval_err_intro hb)
     | callArgErr htd h1 =>
       simp only [step, htd] at hn ⊢
-      have hn' := noUnk_bindL hn
-      exact bindL_err_intro (evalList_complete hrec _ _ hn'.1 h1)
+      have hn' := noUnk_bind2 hn
+      exact bind2_err_left (evalList_complete hrec _ _ hn'.1 h1)
+    | callDefaultErr htd h1 =>
+      simp only [step, htd] at hn ⊢
+      have hn' := noUnk_bind2 hn
+      exact bind2_err_right (evalList_complete hrec' _ _ hn'.2.1 h1)
   | op name args =>
     simp only [step] at hn ⊢
     have hn' := noUnk_bindL hn
@@ -1019,7 +1107,7 @@ theorem step_complete {lib : Lib} {rec : Expr → Outs} (hrec : RecComplete lib 
   | «catch» e clss recs =>
     simp only [step] at hn ⊢
     have hnf := noUnk_flatMap hn
-    have hne : NoUnk (rec e) := by
+    have hne : NoUnk (recC cx e) := by
       intro hu
       have := hnf _ hu
       simp [NoUnk] at this
@@ -1158,7 +1246,8 @@ theorem step_complete {lib : Lib} {rec : Expr → Outs} (hrec : RecComplete lib 
   | subrun e ne =>
     simp only [step] at hn ⊢
     have hnf := noUnk_flatMap hn
-    have hne : NoUnk (rec e) := by
+    have hin := hrecAll (if ne then lib.config.over cx else Ctx.empty.over cx)
+    have hne : NoUnk (recC (if ne then lib.config.over cx else Ctx.empty.over cx) e) := by
       intro hu
       have := hnf _ hu
       simp [NoUnk] at this
@@ -1166,19 +1255,28 @@ theorem step_complete {lib : Lib} {rec : Expr → Outs} (hrec : RecComplete lib 
     cases h with
     | leaf h => simp [isLeaf] at h
     | subrunOk h1 h2 =>
-      have hv := hrec _ _ hne h1
+      have hv := hin _ _ hne h1
       have hb := hnf _ hv
       simp only at hb
       exact ⟨_, hv, bindO_ok_intro (hrec _ _ (noUnk_bindO hb).1 h2) (by simp)⟩
     | subrunOkErr h1 h2 =>
-      have hv := hrec _ _ hne h1
+      have hv := hin _ _ hne h1
       have hb := hnf _ hv
       simp only at hb
       exact ⟨_, hv, bindO_err_intro (hrec _ _ (noUnk_bindO hb).1 h2)⟩
-    | subrunErr h1 => exact ⟨_, hrec _ _ hne h1, by simp⟩
+    | subrunErr h1 => exact ⟨_, hin _ _ hne h1, by simp⟩
+  | getCtx key dflt =>
+    cases h with
+    | leaf h => simp [isLeaf] at h
+    | getCtxHit hk1 hd hv hvv =>
+      have hk1' : '.' ∉ key.toList := by simpa using hk1
+      simp [step, hk1', hd, hv, hvv]
+    | getCtxMiss hk1 hd hv =>
+      have hk1' : '.' ∉ key.toList := by simpa using hk1
+      simp [step, hk1', hd, hv]
   | settle e =>
     simp only [step] at hn ⊢
-    have hne : NoUnk (rec e) := by
+    have hne : NoUnk (recC cx e) := by
       intro hu
       exact hn (List.mem_map.mpr ⟨.unk, hu, rfl⟩)
     rw [List.mem_map]
@@ -1187,29 +1285,29 @@ theorem step_complete {lib : Lib} {rec : Expr → Outs} (hrec : RecComplete lib 
     | settleOk h1 => exact ⟨_, hrec _ _ hne h1, rfl⟩
     | settleErr h1 => exact ⟨_, hrec _ _ hne h1, rfl⟩
 
-theorem evalAll_complete {lib : Lib} : ∀ (n : Nat), RecComplete lib (evalAll lib n)
+theorem evalAll_complete {lib : Lib} : ∀ (n : Nat) (cx : Ctx), RecComplete lib cx (evalAll lib n cx)
   | 0 => by
-    intro e r hn _
+    intro cx e r hn _
     exact absurd (by simp [evalAll]) hn
   | n + 1 => by
-    intro e r hn h
+    intro cx e r hn h
     rw [evalAll] at hn ⊢
-    exact step_complete (evalAll_complete n) e r hn h
+    exact step_complete (evalAll_complete n) cx e r hn h
 
 /-- wherever `evalFuel` answers, its answer is the only outcome the rules allow -/
-theorem evalFuel_unique {lib : Lib} {n : Nat} {e : Expr} {r : Out} (h : evalFuel lib n e = some r) :
-    ∀ r', Eval lib e r' → r' = r := by
+theorem evalFuel_unique {lib : Lib} {n : Nat} {e : Expr} {r : Out} (h : evalFuel lib n cx e = some r) :
+    ∀ r', Eval lib cx e r' → r' = r := by
   intro r' h'
   unfold evalFuel at h
   split at h
   · rename_i v heq
     cases h
-    have := evalAll_complete n e r' (by rw [heq]; simp [NoUnk]) h'
+    have := evalAll_complete n cx e r' (by rw [heq]; simp [NoUnk]) h'
     rw [heq] at this
     simpa using this
   · rename_i x heq
     cases h
-    have := evalAll_complete n e r' (by rw [heq]; simp [NoUnk]) h'
+    have := evalAll_complete n cx e r' (by rw [heq]; simp [NoUnk]) h'
     rw [heq] at this
     simpa using this
   · cases h
